@@ -132,7 +132,8 @@ def linear(ctx, k):
                 tag = "period%d: " % j
                 _sleep_ok(ctx, y, ival, tag)
                 ctx.require(len(log) == j + 1, tag + "exactly one regulation step per interval (first immediately)")
-                ctx.require(same(log[-1][1][0], ival), tag + "regulate receives the interval")
+                if log[-1][1]:  # called without arguments, the step's effect is what counts: bounded below
+                    ctx.require(same(log[-1][1][0], ival), tag + "regulate receives the interval")
                 ctx.observe(tag + "demand", p.demand)
         finally:
             coro.close()
@@ -286,6 +287,40 @@ def switch(ctx, k, nslaves=1):
         _real_clock(ctx, DemandSwitch(p2, Slave("d"), interval=float(ival)), ["regulate"], k, ival, False, "DemandSwitch")
 
 
+def switch_linear(ctx, k):
+    """a DemandSwitch driving a real LinearController that was configured with an interval of its own:
+    the rate bound holds for the interval at which steps actually happen, the switch's"""
+    p = _pool(ctx)
+    ival, own = ctx.num("interval"), ctx.num("slave_interval")
+    low, high, rate = ctx.num("low"), ctx.num("high"), ctx.num("rate")
+    ctx.assume(And(ival > 0, own > 0, rate > 0, low <= high))
+    slave = LinearController(p, low_utilisation=low, high_allocation=high, rate=rate, interval=own)
+    before, after = [], []
+    with patched((switch_mod, "isinstance", _isinstance), (switch_mod, "trio", FakeTrio(trio))):
+        c = DemandSwitch(p, slave, interval=ival)
+        coro = c.run()
+        try:
+            for j in range(k):
+                if j:
+                    p.supply, p.utilisation, p.allocation = (ctx.num("supply_%d" % j),
+                                                             ctx.num("util_%d" % j), ctx.num("alloc_%d" % j))
+                    ctx.assume(p.supply >= 0)
+                before.append(p.demand)
+                y = coro.send(None)
+                after.append(p.demand)
+                _sleep_ok(ctx, y, ival, "period%d: " % j)
+                ctx.observe("period%d: demand" % j, p.demand)
+        finally:
+            coro.close()
+    ctx.reach()
+    for i in range(k):
+        for j in range(i, k):
+            d = after[j] - before[i]
+            bound = rate * ((j - i) * ival + ival)
+            ctx.require(And(d <= bound, -d <= bound),
+                        "window %d..%d: |change| <= rate*(span + interval) under a switch" % (i, j))
+
+
 def buffer(ctx, k):
     p = _pool(ctx)
     window = ctx.num("window")
@@ -421,6 +456,7 @@ def tasks(tier, seed):
         Task(MOD, "stepwise", dict(k=min(k, 3), nrules=2), weight=10),
         Task(MOD, "switch", dict(k=k, nslaves=1), weight=10),
         Task(MOD, "switch", dict(k=min(k, 3), nslaves=2), weight=10),
+        Task(MOD, "switch_linear", dict(k=min(k, 3)), weight=20),
         Task(MOD, "buffer", dict(k=k), weight=30),
         Task(MOD, "factory", dict(k=min(k, 3), n0=1), weight=30),
         Task(MOD, "factory", dict(k=2, n0=2), weight=30),
